@@ -207,6 +207,11 @@ Definition comb_graph (n : nat) : graph :=
   G (fun _ _ => OFail)
     (fun b _ => if (1 <=? b) && (b <=? N.of_nat n) then Some (map (fun j => dia_entry (N.of_nat j)) (seq 1 n)) else None).
 
+(* graphs given as association lists (the tie): object header address -> node; B-tree address -> (its heap, entries) *)
+Definition alist_graph (objs : list (N * onode)) (bts : list (N * (N * list bentry))) : graph :=
+  G (fun a _ => match assoc objs a with Some n => n | None => OFail end)
+    (fun b h => match assoc bts b with Some (h', es) => if h =? h' then Some es else None | None => None end).
+
 (* observable for the tie: class, objects built, loadCount, number of marked B-trees, steps *)
 Definition lres_val (r : lres) : val :=
   match r with
